@@ -7,7 +7,7 @@ W=/tmp/confirm-wt
 export OMP_NUM_THREADS=1 OPENBLAS_NUM_THREADS=1 MKL_NUM_THREADS=1 MPLBACKEND=Agg
 git -C /repo worktree remove --force $W 2>/dev/null
 git -C /repo worktree add -q $W HEAD || exit 2
-for d in seeded/C*/; do
+for d in ${SEEDS:-seeded/C*/}; do
   id=$(basename $d)
   [ -f $d/patch.diff ] || continue
   [ -f $d/confirmed.json ] && [ -z "$FORCE" ] && continue
